@@ -119,7 +119,7 @@ def check_case(case):
         keysets = [(k,) for k in KEYS] if not pairs else list(itertools.combinations(KEYS, 2))
         for ks in keysets:
             for hows in itertools.product(PLACE, repeat=len(ks)) if not pairs else [(h, h2) for h in ("on-max", "above-max") for h2 in ("on-min", "below-min")]:
-                for neg in ((False, True) if not pairs else (False,)):
+                for neg in ((False, True) if (not pairs and hows[0] in ("inside", "below-min", "above-max")) else (False,)):
                     refph = phases[0]
                     lim = {}
                     for k, how in zip(ks, hows):
